@@ -5,7 +5,7 @@ from __future__ import annotations
 import ast
 
 from ..engine.cfg import CFG, own_fragments, walk_fragment
-from ..engine.match import dotted, norm, func_body_stmts, kwarg
+from ..engine.match import dotted, norm, func_body_stmts, kwarg, terminal, leaves_with
 from ..engine.srcmodel import AnalysisError
 
 EXPLANATION = (
@@ -63,11 +63,15 @@ def _map_call(run, P):
     tests = [n for n in g.nodes if n.kind == "test"]
     if not tests:
         raise AnalysisError("map_call: no tests")
-    first_if = body[0] if body and isinstance(body[0], ast.If) else None
-    ok = first_if is not None and norm(first_if.test) == f"not isinstance({e}, type({o}))" \
-        and isinstance(first_if.body[0], ast.Return) and norm(first_if.body[0].value) == "[]"
+    type_tests = [n for n in tests if norm(n.ast) == f"not isinstance({e}, type({o}))"
+                  and leaves_with(n.label.body, ast.Return, "[]")]
+    uses = [n for n in g.nodes if n.ast is not None and n not in type_tests and any(
+        isinstance(x, ast.Attribute) and isinstance(x.value, ast.Name) and x.value.id in (e, o)
+        for fr in own_fragments(n) for x in walk_fragment(fr))]
+    ok = bool(type_tests) and bool(uses) and not g.always_preceded(uses, type_tests)
+    first_if = type_tests[0].label if type_tests else None
     run.ob("C17.type", f, first_if.test if first_if is not None else f.node, bool(ok),
-           construct=f"first statement: if not isinstance({e}, type({o})): return []",
+           construct=f"if not isinstance({e}, type({o})): return []  dominates every use of the operands",
            why="a Call matched against a CallWithKwargs (or anything else) would drop "
                "arguments")
     # the two parameter sequences
@@ -80,7 +84,7 @@ def _map_call(run, P):
     if not zips:
         raise AnalysisError("map_call: zip over the parameter lists not found")
     len_tests = [n for n in tests if norm(n.ast) in (f"len({pe}) != len({po})", f"len({po}) != len({pe})")
-                 and isinstance(n.label.body[0], ast.Return) and norm(n.label.body[0].value) == "[]"]
+                 and leaves_with(n.label.body, ast.Return, "[]")]
     ok = bool(len_tests) and not g.always_preceded(zips, len_tests)
     run.ob("C17.arity", f, len_tests[0].ast if len_tests else zips[0].ast, ok,
            construct=f"if len({pe}) != len({po}): return []  dominates the zip",
@@ -89,7 +93,7 @@ def _map_call(run, P):
         f"set({e}.kw_parameters.keys()) != set({o}.kw_parameters.keys())",
         f"set({o}.kw_parameters.keys()) != set({e}.kw_parameters.keys())",
         f"set({e}.kw_parameters) != set({o}.kw_parameters)")
-        and isinstance(n.label.body[0], ast.Return)]
+        and leaves_with(n.label.body, ast.Return, "[]")]
     augs = [n for n in g.nodes if n.kind == "stmt" and isinstance(n.ast, ast.AugAssign)
             and dotted(n.ast.target) in (pe, po)]
     ok = bool(key_tests) and bool(augs) and not g.always_preceded(augs, key_tests)
@@ -237,9 +241,14 @@ def _match(run, P):
         raise AnalysisError("match: pre_match loop not found")
     lp = loops[0]
     kname, vname = (dotted(t) for t in lp.target.elts)
-    first_stmt = lp.body[0]
-    ok = isinstance(first_stmt, ast.If) and norm(first_stmt.test) == f"{kname} not in free_variable_names" \
-        and isinstance(first_stmt.body[0], ast.Raise)
+    checks = [i for i, s_ in enumerate(lp.body) if isinstance(s_, ast.If)
+              and norm(s_.test) == f"{kname} not in free_variable_names"
+              and leaves_with(s_.body, ast.Raise)]
+    uses_ = [i for i, s_ in enumerate(lp.body) if any(
+        isinstance(x, ast.Call) and isinstance(x.func, ast.Attribute) and x.func.attr == "append"
+        for x in ast.walk(s_))]
+    ok = bool(checks) and bool(uses_) and checks[0] < min(uses_)
+    first_stmt = lp.body[checks[0]] if checks else lp.body[0]
     run.ob("C17.prematch", f, first_stmt, ok,
            construct="every pre_match name: if name not in free_variable_names: raise ValueError",
            why="a pre-supplied binding for a non-free name would bind a bound variable")
@@ -284,8 +293,8 @@ def _match(run, P):
         and isinstance(x.slice, ast.Constant) and x.slice.value == 0
         for x in walk_fragment(n.ast))]
     guards = [n for n in g.nodes if n.kind == "test" and norm(n.ast) == f"not {rec_name}"
-              and isinstance(n.label.body[0], ast.Raise)
-              and "ValueError" in ast.unparse(n.label.body[0])]
+              and leaves_with(n.label.body, ast.Raise)
+              and "ValueError" in ast.unparse(terminal(n.label.body))]
     ok = bool(idx) and bool(guards) and not g.always_preceded(idx, guards)
     run.ob("C17.nomatch", f, idx[0].ast if idx else f.node, ok,
            construct="records[0] is dominated by 'if not records: raise ValueError'",
